@@ -408,7 +408,7 @@ fn class_of(t: &TraceLine, h: &History) -> String {
 }
 
 /// The clean-up windows of a trace: every call of a verifier pass or a reopen, every call that touches
-/// the trash directory, and - since "a log is moved to trash only when no unreplayed write depends on
+/// the trash directory or the manifest (what the manifest lists is what must not be removed), and - since "a log is moved to trash only when no unreplayed write depends on
 /// it" is a statement about what is durable at the moment of the move - every call from a move into
 /// trash up to the end of the API call that made it.
 fn cleanup_points(trace: &[TraceLine], h: &History) -> Vec<bool> {
@@ -421,7 +421,7 @@ fn cleanup_points(trace: &[TraceLine], h: &History) -> Vec<bool> {
             }
         }
         let c = class_of(t, h);
-        if c.starts_with("verify:") || c.starts_with("reopen:") || c.contains(":trash:") || c.contains("->trash:") || c.contains(":verify:") {
+        if c.starts_with("verify:") || c.starts_with("reopen:") || c.contains(":trash:") || c.contains("->trash:") || c.contains(":verify:") || c.contains(":mani:") {
             sel[k] = true;
         }
         if t.moves_to_trash() {
@@ -666,6 +666,30 @@ impl CrashEnum {
             } else {
                 o.label("fault-not-surfaced");
             }
+        }
+        // C08 on the image itself, before anything recovers it: every sst named by the complete
+        // transactions of the live MANIFEST is in sst/ (a file the manifest lists is never removed;
+        // files are linked before the edit that lists them and retired after the edit that drops them)
+        match crate::manifest::listed_ssts_tolerant(&root) {
+            Some(listed) => {
+                let missing: Vec<&String> = listed.iter().filter(|d| !root.join("sst").join(format!("{d}.sst")).exists()).collect();
+                if let (Some(d), false) = (missing.first(), ctx.prop == "C08") {
+                    // C02 speaks of what a reopen yields, not of the files: there this is a label
+                    let _ = d;
+                    o.label("image:listed-sst-missing(not-judged-by-C02)");
+                } else if let Some(d) = missing.first() {
+                    o.fail(
+                        "crash:image-lists-missing-sst",
+                        format!("the image left by {:?} at mutating call {} ({class}) has a MANIFEST that lists sst {d}, which is not in sst/ (trash has it: {}); {} listed, {} missing; operations reported: {other:?}", case.mode, case.k, root.join("trash").join(format!("{d}.sst")).exists(), listed.len(), missing.len()),
+                    );
+                    let _ = std::fs::remove_dir_all(&dir);
+                    return PointVerdict { outcome: o, class };
+                }
+                if missing.is_empty() {
+                    o.label("image:every-listed-sst-present");
+                }
+            }
+            None => o.label("image:no-manifest-yet"),
         }
         if matches!(case.mode, Mode::A2 | Mode::Lose2) {
             // how many mutating calls does the recovery of this image issue?  (on a copy)
